@@ -223,3 +223,92 @@ Proof.
     rewrite (pa_prep_store l v E), pa_slot_store_c. exact E.
   - destruct (fb_star v); [exact I|]. destruct (if (pa_n _ =? 0) || _ then _ else _); exact I.
 Qed.
+
+(* ---- the value parsers never answer "empty line" ------------------------------------------------------------ *)
+Definition noE {St} (r : ires St) : Prop := match r with Ret _ EEmpty _ => False | _ => True end.
+Lemma run_noE {St} (iter : list byte -> list byte -> N -> St -> ires St) :
+  (forall pre rest i s, noE (iter pre rest i s)) ->
+  forall rest pre i v o v', run iter pre rest i 0 v = Done o EEmpty v' -> False.
+Proof.
+  intros Hit rest pre i v o v' H.
+  pose proof (run_inv iter (fun _ _ _ => True) (fun _ e s' => e <> EEmpty)) as R.
+  specialize (R ltac:(intros p r j s _; pose proof (Hit p r j s) as X;
+                      destruct (iter p r j s) as [| ? [] ?|]; auto; discriminate) rest pre i v I).
+  rewrite H in R. congruence.
+Qed.
+
+Lemma ci_iter_noE pre rest i s : noE (ci_iter pre rest i s).
+Proof.
+  unfold noE, ci_iter.
+  assert (Hl : forall s1, match ci_lws rest i s1 with Ret _ EEmpty _ => False | _ => True end).
+  { intros s1. unfold ci_lws. destruct (skipLWS false rest); auto. unfold ci_endOfHdr.
+    destruct (ci_state s1); try destruct (pf_set _ _); auto. }
+  destruct (ci_state s); auto.
+  all: destruct rest as [|c r]; auto.
+  all: destruct (is_ws c); auto; try apply Hl.
+  destruct (pf_set _ _); auto. apply Hl.
+Qed.
+Lemma ui_iter_noE pre rest i s : noE (ui_iter pre rest i s).
+Proof.
+  unfold noE, ui_iter.
+  assert (Hl : forall s1, match ui_lws rest i s1 with Ret _ EEmpty _ => False | _ => True end).
+  { intros s1. unfold ui_lws. destruct (skipLWS false rest); auto. unfold ui_endOfHdr.
+    destruct (ui_state s1); try destruct (pf_set _ _); auto. }
+  destruct (ui_state s); auto.
+  all: destruct rest as [|c r]; auto.
+  all: destruct (is_ws c); auto; try apply Hl.
+  all: try (destruct (pf_set _ _); auto; apply Hl).
+  all: destruct (is_digit c); auto. destruct (acc32 _ _); auto.
+Qed.
+Lemma cs_iter_noE pre rest i s : noE (cs_iter pre rest i s).
+Proof.
+  unfold noE, cs_iter.
+  assert (Hl : forall s1, match cs_lws pre rest i s1 with Ret _ EEmpty _ => False | _ => True end).
+  { intros s1. unfold cs_lws. destruct (skipLWS false rest); auto. unfold cs_endOfHdr, cs_finish.
+    destruct (cs_state s1); repeat (try destruct (pf_set _ _); try destruct (pf_extend _ _)); auto;
+      destruct (_ || _); auto; destruct (zget _ _ _ _); auto. }
+  destruct (cs_state s); auto.
+  all: destruct rest as [|c r]; auto.
+  all: destruct (is_ws c); auto; try apply Hl.
+  all: try (destruct (pf_set _ _); auto; try (destruct (pf_extend _ _); auto); apply Hl).
+  all: destruct (is_digit c); auto. destruct (acc32 _ _); auto.
+Qed.
+Lemma fb_iter_noE h pre rest i s : noE (fb_iter h pre rest i s).
+Proof.
+  unfold noE, fb_iter. destruct (fb_state s) eqn:Est; try exact I.
+  all: destruct rest as [|c r1]; [exact I|].
+  all: assert (Heoh : forall i0 i1 ret e0 (s0 : pfrom), e0 <> EEmpty ->
+         match fb_endOfHdr h pre (c :: r1) i0 i1 ret e0 s0 with Ret _ EEmpty _ => False | _ => True end)
+       by (intros i0 i1 ret e0 s0 He0;
+           destruct (fb_endOfHdr h pre (c :: r1) i0 i1 ret e0 s0) as [|o e' s'|] eqn:E; auto;
+           apply fb_endOfHdr_ret in E as [_ He']; destruct e'; auto;
+           destruct He' as [He'|[He'|He']]; congruence).
+  all: unfold fb_step, fb_gA, fb_gQ, fb_gURI, fb_gURIFound, fb_gP, fb_gPE, fb_gV, fb_gVE, fb_gStar,
+         fb_comma, fb_comma_strict, fb_bad, fb_setpv, fb_lws, fb_lws_b, fb_moreValues.
+  all: destruct (ccls_of c); cbn [st_poss is_st_init is_st_nameoruri is_st_nameoruriend is_st_name is_st_new].
+  all: try destruct (multipleValsOk h); try (apply Heoh; discriminate).
+  all: repeat match goal with
+              | |- context [match pf_set ?a ?b with _ => _ end] => destruct (pf_set a b)
+              | |- context [match pf_extend ?a ?b with _ => _ end] => destruct (pf_extend a b)
+              | |- context [match setFromParamVal ?a ?b ?c0 ?d with _ => _ end] => destruct (setFromParamVal a b c0 d)
+              end; try exact I.
+  all: try (destruct (skipLWS false (c :: r1)) as [k|k crl|k];
+            [exact I|apply Heoh; discriminate|exact I]).
+  all: try (destruct r1 as [|d r2]; [exact I|destruct (is_crlf d); exact I]).
+Qed.
+Lemma ct_iter_noE pre rest i l : noE (ct_iter pre rest i l).
+Proof.
+  rewrite ct_iter_def.
+  destruct (run (fb_iter HdrContact) pre rest i 0 (ct_sel l)) as [next e v| |] eqn:E; [|exact I|exact I].
+  unfold ct_post, noE. destruct e; try exact I; try (destruct (if (ct_n _ =? 0) || _ then _ else _); exact I).
+  exact (run_noE _ (fb_iter_noE HdrContact) _ _ _ _ _ _ E).
+Qed.
+Lemma pa_iter_noE pre rest i l : noE (pa_iter pre rest i l).
+Proof.
+  rewrite pa_iter_def.
+  destruct (run (fb_iter HdrPAI) pre rest i 0 (pa_sel l)) as [next e v| |] eqn:E; [|exact I|exact I].
+  unfold pa_post, noE. destruct e; cbn [err_eqb err_code N.eqb Pos.eqb orb andb]; try exact I.
+  - destruct (fb_star v); [exact I|]. destruct (if (pa_n _ =? 0) || _ then _ else _); exact I.
+  - exact (run_noE _ (fb_iter_noE HdrPAI) _ _ _ _ _ _ E).
+  - destruct (fb_star v); [exact I|]. destruct (if (pa_n _ =? 0) || _ then _ else _); exact I.
+Qed.
